@@ -60,4 +60,69 @@ theorem int_keys_exact (t u : IntTy) (a b : Int) :
 
 example : Cell.goEq (.int .int64 9007199254740992) (.int .int64 9007199254740993) = false := by decide
 
+/-! ### counting laws of the specification the four theorems above equate the code with -/
+/-- counting law of the inner join: one row per (left, right) pair with identical key -/
+theorem inner_count (l r : List Row) (k : Str) :
+    (Spec.innerRows l r k).length = (l.map (fun a => (r.filter (Spec.keyEq k a)).length)).sum := by
+  induction l with
+  | nil => rfl
+  | cons a l ih =>
+    simp only [Spec.innerRows, List.flatMap_cons, List.length_append, List.length_map, List.map_cons, List.sum_cons] at ih ⊢
+    rw [ih]
+
+/-- the left join is the inner join plus each unmatched left row exactly once -/
+theorem left_count (l r : List Row) (k : Str) :
+    (Spec.leftRows l r k).length =
+      (Spec.innerRows l r k).length + (l.filter (fun a => (r.filter (Spec.keyEq k a)).isEmpty)).length := by
+  induction l with
+  | nil => rfl
+  | cons a l ih =>
+    simp only [Spec.leftRows, Spec.innerRows, List.flatMap_cons, List.length_append, List.filter_cons] at ih ⊢
+    rw [ih]
+    cases h : (r.filter (Spec.keyEq k a)).isEmpty
+    · simp; omega
+    · have : r.filter (Spec.keyEq k a) = [] := List.isEmpty_iff.mp h
+      simp [this]; omega
+
+/-- the outer join adds each right row that no left row matches exactly once -/
+theorem outer_count (l r : List Row) (k : Str) :
+    (Spec.outerRows l r k).length =
+      (Spec.leftRows l r k).length + (r.filter (fun b => !(l.any (fun a => Spec.keyEq k a b)))).length := by
+  simp [Spec.outerRows]
+
+/-- every inner-join row is a left-join row (and hence an outer-join row) -/
+theorem inner_sub_left (l r : List Row) (k : Str) : ∀ x ∈ Spec.innerRows l r k, x ∈ Spec.leftRows l r k ∧ x ∈ Spec.outerRows l r k := by
+  intro x hx
+  have hl : x ∈ Spec.leftRows l r k := by
+    simp only [Spec.innerRows, Spec.leftRows, List.mem_flatMap] at hx ⊢
+    obtain ⟨a, ha, hxa⟩ := hx
+    refine ⟨a, ha, ?_⟩
+    cases h : (r.filter (Spec.keyEq k a)).isEmpty
+    · simpa [h] using hxa
+    · have : r.filter (Spec.keyEq k a) = [] := List.isEmpty_iff.mp h
+      rw [this] at hxa; simp at hxa
+  exact ⟨hl, by simp [Spec.outerRows, hl]⟩
+
+/-- heights of the four results, on the frames the code returns: inner = one row per matching pair; left = inner + the
+unmatched left rows; outer = left + the unmatched right rows -/
+theorem join_heights {l r : Frame} (hl : l.Sorted) (k : Str) (hkl : l.has k = true) (hkr : r.has k = true)
+    {ji jl jo : Frame} (hi : l.innerJoin r k = .ok ji) (hlf : l.leftJoin r k = .ok jl) (ho : l.outerJoin r k = .ok jo) :
+    let L := Spec.rowsOf l
+    let R := Spec.rowsOf r
+    let ni := (L.map (fun a => (R.filter (Spec.keyEq k a)).length)).sum
+    let nl := ni + (L.filter (fun a => (R.filter (Spec.keyEq k a)).isEmpty)).length
+    ji.RectN ni ∧ jl.RectN nl ∧ jo.RectN (nl + (R.filter (fun b => !(L.any (fun a => Spec.keyEq k a b)))).length) := by
+  intro L R ni nl
+  rw [inner_spec hl k hkl hkr] at hi
+  rw [left_spec hl k hkl hkr] at hlf
+  rw [outer_spec hl k hkl hkr] at ho
+  cases hi; cases hlf; cases ho
+  refine ⟨?_, ?_, ?_⟩
+  · have := Spec.rectN_ofRows (Spec.sortedUnion l.keys r.keys) (Spec.innerRows L R k)
+    rwa [inner_count] at this
+  · have := Spec.rectN_ofRows (Spec.sortedUnion l.keys r.keys) (Spec.leftRows L R k)
+    rwa [left_count, inner_count] at this
+  · have := Spec.rectN_ofRows (Spec.sortedUnion l.keys r.keys) (Spec.outerRows L R k)
+    rwa [outer_count, left_count, inner_count] at this
+
 end Goframe.C03
